@@ -1,14 +1,15 @@
-(* Extraction for the C03 runner (ml/c03run.ml): the command model of Extract.v together with
+(* Keep the name list a SUPERSET of Extract/Extract.v (ml/memrun.ml is compiled against this module).
+   Extraction for the C03 runner (ml/c03run.ml): the command model of Extract.v together with
    the independent reply decoder, in ONE module so that both share the extracted `reply` type.
    The module is named model.ml so that ml/util.ml and ml/memrun.ml (reply printing and
    comparison of the keyspace pipeline) are reused unchanged.
    ExtrOcamlBasic only; N, Z, positive, nat, byte stay the extracted inductives. *)
 Require Import Base.Bytes Base.GoInt Base.Reply Glob.GlobSpec Glob.GlobModel.
-Require Import Mem.Types Mem.Exec Mem.Server.
+Require Import Mem.Types Mem.Exec Mem.Server Mem.ListsBg.
 Require Import Resp.RespSpec Resp.ReplyCodec.
 Require Extraction.
 Require Import ExtrOcamlBasic.
 Extraction Language OCaml.
 Extraction "model.ml" byte_of_N byte_to_N gmatch keys_filter
-  z_to_dec parse_int_unbounded atoi64 purge srv_init srv_exec
+  z_to_dec parse_int_unbounded atoi64 purge srv_init srv_exec srv_exec_bg
   reply_wf encode_cmd encode_reply decode_stream.
